@@ -48,7 +48,9 @@ def generate(rng, tier, rep):
                               # what is printed must not depend on it)
                               'slow': rng.random() < 0.35,
                               # the first of the k layers is the unit-test layer (a layer like any other under -j N)
-                              'unit_first': N > 1 and rng.random() < 0.4})
+                              'unit_first': N > 1 and rng.random() < 0.4,
+                              # one of the layers runs no test at all (its set-up failed in the child): its block is printed like any other
+                              'zero_child': rng.randrange(k) if rng.random() < 0.3 else None})
     for c in cases:
         rep.count('k=%d' % c['k'])
         rep.count('N=%d' % c['N'])
@@ -96,7 +98,7 @@ def run_sched(i, c):
             if c['dots']:
                 out += b'..\n'
         tokens[j] = toks
-        script[names[j]] = {'barrier': os.path.join(d, 'b%d' % j), 'stdout': out.hex(), 'stderr': b'1 0 0\n'.hex(), 'end': 'exit0'}
+        script[names[j]] = {'barrier': os.path.join(d, 'b%d' % j), 'stdout': out.hex(), 'stderr': (b'0 0 0\n' if c.get('zero_child') == j else b'1 0 0\n').hex(), 'end': 'exit0'}
         if c.get('slow'):
             script[names[j]]['pause'] = 0.06
     json.dump(script, open(os.path.join(d, 'fake.json'), 'w'))
@@ -165,7 +167,7 @@ def to_coq(c, o):
     return ('{| n_procs := %d; n_layers := %d; child_lines := %s; release := %s; o_tokens := %s; o_alive := %s; '
             'o_ran := %d; o_expected_ran := %d; o_hung := %s |}' % (
                 c['N'], k, lines, g_nats(o['release']), g_nats(o['stdout_tokens']),
-                g_list([g_nats(a) for a in o['alive']]), max(o['ran'], 0), k + (1 if c['N'] == 1 else 0), g_bool(o['hung'])))
+                g_list([g_nats(a) for a in o['alive']]), max(o['ran'], 0), k + (1 if c['N'] == 1 else 0) - (1 if c.get('zero_child') is not None else 0), g_bool(o['hung'])))
 
 
 def sample_view(c, o):
